@@ -110,6 +110,41 @@ TkRun(st, chars, i, pu, uq) == TkFinish(TkRunR(st, chars, i, Len(chars), pu, uq)
 TkTokenize(chars, pu) == TkRun(TkInit, chars, 1, pu, FALSE)
 TkTokens(r) == SelectSeq(r.out, LAMBDA x : x.k = "tok")
 
+\* ------------------------------------------------------------ the input as a stream with explicit positions
+\* The tokenizer consumes a character *stream*; a reader may fetch it in blocks.  blk = 0: look-ahead is
+\* unbounded (the reference: one character per read, or blocks that are refilled before looking ahead).
+\* blk = B > 0 models a block-buffered reader whose look-ahead for the doubled quote '' cannot see past
+\* the end of the current block: a quote character that is the last character of a block closes the
+\* token.  The character chars[i] sits at stream offset i - 1.
+TkStepAt(st, chars, i, pu, blk) ==
+    IF blk > 0 /\ st.mode = "quo" /\ chars[i] = TkQuote /\ i % blk = 0
+      THEN TkEmit(st, TRUE)
+      ELSE TkStepU(st, chars[i], pu, FALSE)
+RECURSIVE TkRunRB(_, _, _, _, _, _)
+TkRunRB(st, chars, lo, hi, pu, blk) ==
+    IF lo > hi THEN st
+    ELSE IF lo = hi THEN TkStepAt(st, chars, lo, pu, blk)
+    ELSE LET mid == (lo + hi) \div 2
+             s1 == TkRunRB(st, chars, lo, mid, pu, blk)
+         IN IF s1.mode = "" THEN s1 ELSE TkRunRB(s1, chars, mid + 1, hi, pu, blk)
+TkTokenizeB(chars, pu, blk) == TkFinish(TkRunRB(TkInit, chars, 1, Len(chars), pu, blk))
+\* n characters that carry no token: whitespace, line breaks or one comment
+TkPad(kind, n) ==
+    CASE kind = "ws" -> [i \in 1..n |-> "sp"]
+      [] kind = "nl" -> [i \in 1..n |-> "nl"]
+      [] kind = "com" -> IF n < 2 THEN [i \in 1..n |-> "sp"]
+                         ELSE <<TkComBegin>> \o [i \in 1..(n - 2) |-> "a"] \o <<TkComEnd>>
+\* a statement in which the escaped label meets every kind of neighbour: punctuation, a comment, whitespace
+TkStmt(esc) == <<"lp">> \o esc \o <<"cm">> \o esc \o <<"co", "a", "rp">> \o esc \o <<"lb", "a", "rb", "sp">> \o esc \o <<"sc">>
+TkSig(r) == [err |-> r.err, toks |-> [i \in 1..Len(TkTokens(r)) |-> [s |-> TkTokens(r)[i].s, q |-> TkTokens(r)[i].q]]]
+\* token identity does not depend on the stream offset at which the statement starts
+TkOffsetIndependent(label, uu, ps, pu, protect, kind, n, blk) ==
+    LET body == TkStmt(TkEscape(label, ps, ~uu, protect)) IN
+    /\ TkSig(TkTokenizeB(TkPad(kind, n) \o body, pu, blk)) = TkSig(TkTokenizeB(body, pu, 0))
+    /\ LET t == TkSig(TkTokenizeB(TkPad(kind, n) \o body, pu, blk)).toks IN
+         /\ Len(t) = 10
+         /\ t[2].s = label /\ t[4].s = label /\ t[8].s = label /\ t[9].s = label
+
 \* ------------------------------------------------------------ the token-level property
 \* side conditions of the property on one label
 TkSideOk(label) == Len(label) >= 1 /\ label[1] \notin TkWhite /\ label[Len(label)] \notin TkWhite
